@@ -284,6 +284,69 @@ type concRewriter struct {
 	skip      map[ast.Node]bool // subtrees left exactly as they are (they only run without a scheduler)
 	native    map[ast.Node]bool // channel operations performed natively once the scheduler has picked them
 	seen      map[ast.Node]bool // containers already processed (bodies may be shared between two parents)
+	// statement lists lexically inside the body of a `range` loop: the ranged expressions whose kind decides
+	// at run time whether a statement-level scheduling point is taken (never inside a loop over a map, whose
+	// iteration order the scheduler does not control), or no scheduling points at all where the ranged
+	// expression cannot be re-evaluated safely
+	guards    map[ast.Node][]ast.Expr
+	noYield   map[ast.Node]bool
+	curGuards []ast.Expr
+	curNo     bool
+}
+
+// rangeGuards records, for every statement container inside a range body, the enclosing ranged expressions.
+type rangeGuards struct {
+	r      *concRewriter
+	guards []ast.Expr
+	none   bool
+}
+
+func pureExpr(e ast.Expr) bool {
+	switch x := e.(type) {
+	case *ast.Ident:
+		return true
+	case *ast.SelectorExpr:
+		return pureExpr(x.X)
+	case *ast.ParenExpr:
+		return pureExpr(x.X)
+	}
+	return false
+}
+
+func (v rangeGuards) Visit(n ast.Node) ast.Visitor {
+	switch x := n.(type) {
+	case *ast.RangeStmt:
+		nv := v
+		switch {
+		case isSliceLit(x.X):
+		case pureExpr(x.X):
+			nv.guards = append(append([]ast.Expr{}, v.guards...), x.X)
+		default:
+			nv.none = true
+		}
+		if x.X != nil {
+			ast.Walk(v, x.X)
+		}
+		ast.Walk(nv, x.Body)
+		return nil
+	case *ast.BlockStmt, *ast.CaseClause, *ast.CommClause:
+		if len(v.guards) > 0 {
+			v.r.guards[n] = v.guards
+		}
+		if v.none {
+			v.r.noYield[n] = true
+		}
+	}
+	return v
+}
+
+func isSliceLit(e ast.Expr) bool {
+	cl, ok := e.(*ast.CompositeLit)
+	if !ok {
+		return false
+	}
+	_, ok = cl.Type.(*ast.ArrayType)
+	return ok
 }
 
 func (r *concRewriter) unsupported(n ast.Node, what string) bool {
@@ -300,6 +363,8 @@ func sel(pkg, name string) ast.Expr {
 func (r *concRewriter) file(f *ast.File) {
 	r.inFunc = 1 // every BlockStmt of a Go file is inside some function body
 	r.skip, r.native, r.seen = map[ast.Node]bool{}, map[ast.Node]bool{}, map[ast.Node]bool{}
+	r.guards, r.noYield = map[ast.Node][]ast.Expr{}, map[ast.Node]bool{}
+	ast.Walk(rangeGuards{r: r}, f)
 	ast.Inspect(f, func(n ast.Node) bool {
 		if n != nil && (r.skip[n] || r.native[n]) {
 			return false
@@ -310,18 +375,21 @@ func (r *concRewriter) file(f *ast.File) {
 				return false
 			}
 			r.seen[x] = true
+			r.curGuards, r.curNo = r.guards[x], r.noYield[x]
 			x.List = r.stmts(x.List)
 		case *ast.CaseClause:
 			if r.seen[x] {
 				return false
 			}
 			r.seen[x] = true
+			r.curGuards, r.curNo = r.guards[x], r.noYield[x]
 			x.Body = r.stmts(x.Body)
 		case *ast.CommClause:
 			if r.seen[x] {
 				return false
 			}
 			r.seen[x] = true
+			r.curGuards, r.curNo = r.guards[x], r.noYield[x]
 			x.Body = r.stmts(x.Body)
 		case *ast.CallExpr:
 			if r.yieldOnly {
@@ -345,6 +413,9 @@ func (r *concRewriter) file(f *ast.File) {
 func (r *concRewriter) yield() ast.Stmt {
 	r.usedSched, r.changed = true, true
 	r.st.Yields++
+	if len(r.curGuards) > 0 {
+		return &ast.ExprStmt{X: &ast.CallExpr{Fun: sel("verifvsched", "YieldUnlessMap"), Args: append([]ast.Expr{}, r.curGuards...)}}
+	}
 	return &ast.ExprStmt{X: &ast.CallExpr{Fun: sel("verifvsched", "Yield")}}
 }
 
@@ -357,7 +428,7 @@ func (r *concRewriter) stmts(list []ast.Stmt) []ast.Stmt {
 			switch s.(type) {
 			case *ast.DeclStmt, *ast.EmptyStmt, *ast.CaseClause, *ast.CommClause:
 			default:
-				if !r.native[s] { // (no scheduling point between the scheduler's pick and the operation it picked)
+				if !r.native[s] && !r.curNo { // (no scheduling point between the scheduler's pick and the operation it picked)
 					out = append(out, r.yield())
 				}
 			}
